@@ -486,7 +486,11 @@ fn near_cases() -> impl Strategy<Value = Case> {
     // gap 5k*2^-30: from 1.9e-8 (19 x the tolerance) to 7.6e-5, roughly log-uniform
     let k = || (2u32..=14, 0u32..1024).prop_map(|(e, f)| ((1u32 << e) + (f * (1u32 << e) / 1024)).max(4));
     prop_oneof![
-        3 => (coord(), coord(), m(), m(), 0u8..12, k(), any::<bool>(), any::<bool>()).prop_map(|(x, y, m1, m2, dir, k, crossing, inner)| Case::NearCC { x, y, m1, m2, dir, k, crossing, inner }),
+        // comparable radii by construction: m2 = m1 * f/1024 with f in [0.5, 2)
+        3 => (coord(), coord(), m(), 512u32..2048, 0u8..12, k(), any::<bool>(), any::<bool>()).prop_map(|(x, y, m1, f, dir, k, crossing, inner)| {
+            let m2 = ((m1 as u64 * f as u64) >> 10).clamp(205, 204_800) as u32;
+            Case::NearCC { x, y, m1, m2, dir, k, crossing, inner }
+        }),
         2 => (coord(), coord(), m(), 0u8..12, k(), any::<bool>()).prop_map(|(x, y, m, dir, k, crossing)| Case::NearCL { x, y, m, dir, k, crossing }),
     ]
 }
